@@ -20,7 +20,11 @@ LEVEL_TEXT = ("Bounded contract checking by single-fault mutation: every valid g
               "walk networkx graphs and numpy shapes and are decided on the bounded rung (the MapSpec.shape "
               "rank/zip checks are covered under C08). Proved part (pyvc): validate_unique_output_names (raises "
               "exactly when the new output name is already taken) and _validate_shapes (raises exactly for a surplus "
-              "array, a missing array, a rank mismatch or an internal shape for a non-output). Category 'other' = "
+              "array, a missing array, a rank mismatch or an internal shape for a non-output) and "
+              "_validate_complete_inputs (raises exactly for a root argument without input or default, or an input "
+              "that is not a root argument) and validate_consistent_defaults (raises exactly when two functions "
+              "declare different defaults for an argument that neither binds and no function produces; two nested loop "
+              "invariants over the dict of recorded defaults). Category 'other' = "
               "those contracts + bounded fault-class checking; it is not a proof of C12.")
 LEVEL_NOTE = ("Fault classes: duplicate output, output named like own parameter, cycle, inconsistent defaults, "
               "MapSpec/signature mismatch, inconsistent axes between MapSpecs, missing input, surplus input, wrong "
@@ -56,7 +60,11 @@ def proof_items():
     from props.C08 import _vshape_gen
     return [ProofItem(misc.validate_unique_output_names, gen=_vuo_gen),
             # the map-level rejections of surplus / missing arrays and wrong ranks come from here
-            ProofItem(mapspec.validate_shapes, gen=_vshape_gen)]
+            ProofItem(mapspec.validate_shapes, gen=_vshape_gen),
+            # missing / surplus inputs of a map request
+            ProofItem(misc.validate_complete_inputs, gen=misc.vci_gen),
+            # the "inconsistent defaults" fault class
+            ProofItem(misc.validate_consistent_defaults, gen=misc.vcd_gen)]
 
 
 # ---- construction-level faults on call-level DAGs --------------------------------------------------------------
